@@ -126,6 +126,20 @@ def stepSt (st : St) (w : List String) : St × String :=
         match slot i NW, n.toNat?, v.toNat? with
         | some i, some n, some v => runOp st (.oaResize i n v)
         | _, _, _ => bad
+      | ["oa_resize_throw", i, n, v] =>   -- failed attempts are no-ops
+        match slot i NW, n.toNat?, v.toNat? with
+        | some i, some n, some v => runOp st (.oaResize i n v)
+        | _, _, _ => bad
+      | ["oa_resize_self", i, n, k] =>   -- fill value = the array's own element k at the time of the call
+        match slot i NW, n.toNat?, k.toNat? with
+        | some i, some n, some k =>
+          (match getW st.m i with
+           | some (.oa _ buf) =>
+             (match (cellAt st.m.heap buf).data[k]? with
+              | some v => runOp st (.oaResize i n v)
+              | none => (st, "pre"))
+           | _ => (st, "pre"))
+        | _, _, _ => bad
       | ["copy", i, j, how] =>
         match nat2 i j NW NW with
         | some (i, j) => runOp st (.copy i j (how == "move"))
